@@ -51,14 +51,15 @@ type Layout struct {
 
 // LayoutConfig bounds a layout; zero fields take the defaults in the comments.
 type LayoutConfig struct {
-	IPVersion      uint8 // family the rules are aimed at (default 4)
-	MaxTiers       int   // default 4 (0..MaxTiers tiers)
-	MaxPolicies    int   // per tier, default 12 (crosses the return stride of 5 twice)
-	MaxGroup       int   // largest policy group, default 7
-	MaxProfiles    int   // default 3
-	MaxRules       int   // per direction of a policy/profile, default 4
-	ComplexRulePct int   // % of rules drawn from Rule() instead of SimpleRule(), default 15
-	StagedPct      int   // % of policies that are staged, default 25
+	IPVersion      uint8  // family the rules are aimed at (default 4)
+	MaxTiers       int    // default 4 (0..MaxTiers tiers)
+	MaxPolicies    int    // per tier, default 12 (crosses the return stride of 5 twice)
+	MaxGroup       int    // largest policy group, default 7
+	MaxProfiles    int    // default 3; negative = no profiles
+	MaxRules       int    // per direction of a policy/profile, default 4
+	ComplexRulePct int    // % of rules drawn from Rule() instead of SimpleRule(), default 15; negative = none
+	StagedPct      int    // % of policies that are staged, default 25
+	NamePrefix     string // prepended to tier, policy and profile names (to keep two layouts apart)
 }
 
 func (c LayoutConfig) withDefaults() LayoutConfig {
@@ -282,7 +283,7 @@ func (g *Gen) Layout(cfg LayoutConfig) *Layout {
 	l := &Layout{}
 	nt := g.R.Intn(cfg.MaxTiers + 1)
 	for t := 0; t < nt; t++ {
-		tier := &LTier{Name: fmt.Sprintf("tier%d", t), DefaultAction: "Deny"}
+		tier := &LTier{Name: fmt.Sprintf("%stier%d", cfg.NamePrefix, t), DefaultAction: "Deny"}
 		if g.R.Intn(100) < 35 {
 			tier.DefaultAction = "Pass"
 		}
@@ -338,8 +339,12 @@ func (g *Gen) Layout(cfg LayoutConfig) *Layout {
 		tier.EgressGroups = g.partition(out, cfg.MaxGroup)
 		l.Tiers = append(l.Tiers, tier)
 	}
-	for i, n := 0, g.R.Intn(cfg.MaxProfiles+1); i < n; i++ {
-		l.Profiles = append(l.Profiles, &LProfile{Name: fmt.Sprintf("prof-%d-%s", i, g.newID("")[:6]),
+	nprof := 0
+	if cfg.MaxProfiles > 0 {
+		nprof = g.R.Intn(cfg.MaxProfiles + 1)
+	}
+	for i := 0; i < nprof; i++ {
+		l.Profiles = append(l.Profiles, &LProfile{Name: fmt.Sprintf("%sprof-%d-%s", cfg.NamePrefix, i, g.newID("")[:6]),
 			Inbound: g.ruleList(cfg), Outbound: g.ruleList(cfg)})
 	}
 	return l
